@@ -123,5 +123,14 @@ def Hash.verifyData (sum : Int → Bytes → Option Bytes) (h : Hash) (data : By
 def Hash.compare (a b : Hash) : Bool :=
   a.type = b.type && a.digest.length = b.digest.length && a.digest = b.digest
 
+/-- `(*Hash).CompareHash(other)` with the nil receivers / arguments of the Go method
+(`none` = nil pointer): both nil ⇒ true, exactly one nil ⇒ false, otherwise field by field. -/
+def Hash.compareOpt (a b : Option Hash) : Bool :=
+  match a, b with
+  | none, none => true
+  | none, some _ => false
+  | some _, none => false
+  | some x, some y => Hash.compare x y
+
 end Codec
 end Bifrost
